@@ -6,6 +6,8 @@ let areas : (string list -> string option) list = [
   D_strat.run_case;
   D_state.run_case;
   D_c20.run_case;
+  D_c11.run_case;
+  D_c12.run_case;
 ]
 
 let run_case toks =
